@@ -133,10 +133,13 @@ Theorem C17_textinput_draw_fix_conservative :
 Proof. exact draw_fix_conservative. Qed.
 Print Assumptions C17_textinput_draw_fix_conservative.
 
-(* Drawn cursor column.  Full statement wanted: "while the text fits the widget the cursor
-   is shown at prompt width + width of the text before the cursor".  Proved with two
-   explicit guards: (1) "fits" includes the widget's 4-column scroll margin, and (2) no
-   earlier Draw has scrolled (offset = 0): the offset is sticky, see the refutation below. *)
+(* Drawn cursor column.  Full statement (what the property says, and what the differential
+   run evaluates as `violations`): "whenever prompt + text fit the window the cursor is
+   shown at prompt width + width of the text before the cursor".  The widget violates it:
+   recorded finding textinput-sticky-offset (KNOWN_FINDINGS.txt; guard = ti_case_known; the
+   two refutations below are its witnesses).  Proved: the statement with that finding
+   excluded, i.e. (1) no earlier Draw has scrolled (offset = 0), and (2) the widget's
+   4-column scroll margin fits as well. *)
 Theorem C17_textinput_drawn_cursor_column_partial :
   forall (m : ti) (w : Z),
     widths_ok (ti_prompt m) -> widths_ok (ti_content m) ->
@@ -147,7 +150,7 @@ Theorem C17_textinput_drawn_cursor_column_partial :
 Proof. exact ti_drawn_cursor_column. Qed.
 Print Assumptions C17_textinput_drawn_cursor_column_partial.
 
-(* guard (2) is needed: type 20 narrow characters, Draw at width 10, then Draw at width 80 —
+(* guard (1) is needed: type 20 narrow characters, Draw at width 10, then Draw at width 80 —
    everything fits, yet the cursor is shown in column 5, not 20 *)
 Theorem C17_textinput_sticky_offset_refuted :
   exists chars alnum s m,
@@ -159,7 +162,21 @@ Proof.
 Qed.
 Print Assumptions C17_textinput_sticky_offset_refuted.
 
-(* tf_op_ok excludes assignments to the exported field Value.  That guard is needed: the
+(* guard (2) is needed: 7 narrow characters in a 10-column window fit, the cursor is shown
+   in column 5 behind a truncation mark *)
+Theorem C17_textinput_scroll_margin_refuted :
+  exists chars alnum s m,
+    ti_run chars alnum (ti_new []) [OEv (EDefault false s)] = Some m /\
+    ti_offset m = 0 /\ ti_cursor m = 7 /\ cl_width (ti_content m) = 7 /\
+    ti_draw m 10 = DrawDone 2 (Some 5).
+Proof.
+  destruct ti_scroll_margin_witness as (m & H).
+  exists (chars_tab demo_alpha), demo_alnum, (repeat 97 7), m. exact H.
+Qed.
+Print Assumptions C17_textinput_scroll_margin_refuted.
+
+(* tf_op_ok excludes assignments to the exported field Value (API misuse, an observation
+   only).  That guard is needed: the
    cached count is then stale and End does not move to the end of the text. *)
 Theorem C17_textfield_direct_value_refuted :
   exists seg os st log,
